@@ -189,6 +189,90 @@ def gen_conc_case(rng):
     return ops
 
 
+def gen_panic_case(rng, smap, nshards, user_faults=True):
+    """C22 profile: churn over collectable types (a new colliding value in almost every
+    revision, memos attached to the interned values through the keyed function so that
+    recycling a slot discards something), with the event callback -- and, more rarely, the
+    user `Hash`/`PartialEq` of the field -- armed to panic.  After an armed request the same
+    request is repeated in the same revision and in later ones."""
+    main_ty = rng.choices(["1", "2", "3", "D"], weights=[45, 30, 15, 10])[0]
+    other_ty = rng.choice(["1", "2", "M"])
+    hot = rng.randrange(nshards)
+    by_shard = [v for v in range(VALUE_POOL) if smap[main_ty][v] == hot]
+    hot_vals = by_shard[: rng.randint(4, 10)]
+    cold_vals = [v for v in range(VALUE_POOL) if smap[main_ty][v] != hot][:8]
+    n_inputs = 4
+    durs = ["L", "L", rng.choice("LM"), "H"]
+    ops = ["inputs %d" % n_inputs]
+    for i in range(n_inputs):
+        ops.append("set %d %d %s" % (i, rng.choice(hot_vals), durs[i]))
+    nxt = rng.randrange(len(hot_vals))
+
+    def val():
+        return rng.choice(hot_vals) if rng.random() < 0.85 else rng.choice(cold_vals)
+
+    def ty():
+        return main_ty if rng.random() < 0.9 else other_ty
+
+    def fault():
+        r = rng.random()
+        if user_faults and r < 0.10:
+            return "userfault %s %d" % (rng.choice(["hash", "hash", "eq"]), rng.randint(1, 4))
+        kind = rng.choices(["discard", "reuse", "intern", "validate", "exec", "valid", "any"],
+                           weights=[34, 16, 10, 12, 8, 5, 15])[0]
+        return "evfault %s %d" % (kind, rng.choices([1, 2, 3, 5], weights=[60, 20, 12, 8])[0])
+
+    def request():
+        r = rng.random()
+        shape = rng.choices(["dynuse", "dynread", "dyn"], weights=[50, 35, 15])[0]
+        if r < 0.55:
+            return "get %s %s %d" % (shape, main_ty, rng.choice([0, 0, 1]))
+        if r < 0.80:
+            return "get use %s %d %d" % (ty(), rng.choice([0, 1]), hot_vals[nxt % len(hot_vals)])
+        if r < 0.92:
+            return "get after %s %d %d" % (ty(), rng.randrange(n_inputs), val())
+        return "intern %s %d" % (ty(), val())
+
+    length = rng.randint(45, 100)
+    while len(ops) < length:
+        r = rng.random()
+        if r < 0.50:
+            nxt += 1
+            i = rng.choice([0, 0, 0, 1])
+            ops.append("set %d %d L" % (i, hot_vals[nxt % len(hot_vals)]))
+            req = "get %s %s %d" % (rng.choices(["dynuse", "dynread", "dyn"], weights=[55, 35, 10])[0],
+                                    main_ty, i)
+        elif r < 0.72:
+            nxt += 1
+            ops.append("newrev")
+            req = request()
+        elif r < 0.80:
+            for _ in range(rng.randint(1, 3)):
+                ops.append("newrev")
+            req = request()
+        elif r < 0.88:
+            i = rng.randrange(1, n_inputs)
+            ops.append("set %d %d %s" % (i, val(), durs[i]))
+            req = "get dynuse %s %d" % (ty(), i)
+        else:
+            req = request()
+        armed = rng.random() < 0.40
+        if armed:
+            ops.append(fault())
+        ops.append(req)
+        if armed:
+            ops.append(req)                      # same revision, the fault is spent (or not)
+            if rng.random() < 0.5:
+                ops.append("get dynuse %s %d" % (main_ty, rng.choice([0, 1])))
+            if rng.random() < 0.3:
+                ops += ["evfault off", "userfault off"]
+    ops += ["evfault off", "userfault off", "newrev"]
+    for i in (0, 1):
+        ops.append("get dynuse %s %d" % (main_ty, i))
+        ops.append("get dynread %s %d" % (main_ty, i))
+    return ops
+
+
 # --------------------------------------------------------------------------- one case
 
 def run_harness(ops, pinned=True):
@@ -257,6 +341,15 @@ def classify_records(recs):
             out.append(("M", r, None))
         elif op == "abort":
             out.append(("A", r, None))
+        elif op == "insert-unwound":
+            # user Hash unwound inside insert_value (cold path): after the key-map insertion
+            # (debug assertion) the slot is completely published -> a cut after the commit
+            # point; before it, nothing but the LRU link was written
+            if r.get("inserted") == "1":
+                r = dict(r, stamp="out" if r["lia_after"] == REV_MAX else "q" + r["dur_after"])
+                out.append(("U", r, None))
+            else:
+                out.append(("A", r, None))
         elif op == "intern":
             out.append(("I", r, None))
         elif op in ("commit", "touch"):
@@ -282,7 +375,7 @@ def to_replay(pops, hashval=None):
              "mca_refresh": 0, "pinned_slot": 0, "outside_stamp": 0, "never_stamp": 0,
              "immortal_records": 0, "reads": 0, "par_ops": 0, "par_races": 0,
              "commit_records": 0, "unwound_reuse": 0, "unwound_cold": 0, "unwound_fast": 0,
-             "aborted": 0}
+             "aborted": 0, "orphan_in_lru": 0}
     api_errors = []
     for oi, op in enumerate(pops):
         for kind, r, other in classify_records(op["recs"]):
@@ -298,6 +391,12 @@ def to_replay(pops, hashval=None):
                 lines.append("A %d %s Q %s E" % (k, r["rev"], q))
                 meta.append((oi, "A", k, r))
                 stats["aborted"] += 1
+                if r.get("op") == "insert-unwound" and r.get("linked") == "1":
+                    stats["orphan_in_lru"] += 1
+                    api_errors.append(
+                        "op %d: the cold path unwound (user Hash during the key-map growth) after "
+                        "linking slot %s into the LRU and before inserting it into the key map: "
+                        "the slot is reachable for reuse but has no key-map entry" % (oi, r["idx"]))
                 continue
             lru = " ".join(_lst(r["lru"]))
             lia = None
@@ -313,6 +412,9 @@ def to_replay(pops, hashval=None):
                 lines.append("C %d %s %s %s %s %s Q %s L %s %s E" % (
                     k, r["rev"], r["idx"], r["gen"], lia, r["dur_after"], q, r["shard"], lru))
                 meta.append((oi, "C", k, r))
+                if (k, r["hash"]) in valid:          # the id the call returned
+                    handle_val.setdefault((k, r["idx"], r["gen"]),
+                                          (valid[(k, r["hash"])], r.get("val")))
             elif kind in ("I", "U"):
                 key = (k, r["hash"])
                 if key not in valid:
@@ -405,6 +507,8 @@ def to_replay(pops, hashval=None):
     return lines, meta, stats, api_errors
 
 
+KNOWN_ORPHAN = "intern-cold-rehash-orphan"
+ORPHAN_PANIC = "interned value in LRU so must be in key_map"
 FAULT_KINDS = ("ev intern", "ev reuse", "ev validate", "ev discard", "ev exec", "ev valid",
                "hash", "eq")
 
@@ -421,7 +525,9 @@ def value_oracle(pops):
     by_handle, by_value = {}, {}
     panics = {k: 0 for k in FAULT_KINDS}
     panics["after_any_panic_requests"] = 0
+    panics["known:" + KNOWN_ORPHAN] = 0
     seen_panic = False
+    hash_fault_seen = False
     for oi, op in enumerate(pops):
         w = op["text"].split()
         if w[0] == "set":
@@ -430,8 +536,14 @@ def value_oracle(pops):
             continue
         for f in op["faults"]:
             panics[f] = panics.get(f, 0) + 1
+        hash_fault_seen = hash_fault_seen or "hash" in op["faults"]
         for cls, msg in op["panics"]:
-            if cls != "injected":
+            if cls != "injected" and hash_fault_seen and ORPHAN_PANIC in msg:
+                # known finding (see checks/notes/C22-intern.txt): a user Hash panic during the
+                # key-map growth of the cold path left a slot in the LRU without key-map entry;
+                # the first later interning that picks it for reuse panics once
+                panics["known:" + KNOWN_ORPHAN] += 1
+            elif cls != "injected":
                 problems.append("op %d (%s): unwound with a panic that was not injected: %s"
                                 % (oi, op["text"], msg))
             elif not op["faults"]:
@@ -481,7 +593,7 @@ def check_case_full(ops, pinned=True, hashval=None, replay=True):
     """-> dict(value_problems, model_problems, stats, panics).  `value_problems` come from the
     implementation alone (value_oracle + API read-backs), `model_problems` from the replay of
     the hook records through the extracted model."""
-    res = {"value_problems": [], "model_problems": [], "stats": {}, "panics": {}}
+    res = {"value_problems": [], "model_problems": [], "stats": {}, "panics": {}, "known": []}
     try:
         rc, out, err = run_harness(ops, pinned)
     except subprocess.TimeoutExpired:
@@ -504,6 +616,15 @@ def check_case_full(ops, pinned=True, hashval=None, replay=True):
     for a in api:
         pure = ("asked for" in a or "read back" in a or "two handles" in a or "share a handle" in a)
         (res["value_problems"] if pure and "linearisation" not in a else problems).append(a)
+    if panics.get("known:" + KNOWN_ORPHAN):
+        res["known"].append(KNOWN_ORPHAN + ": a later interning panicked once with salsa's own `%s`"
+                            % ORPHAN_PANIC)
+    if stats.get("orphan_in_lru"):
+        # the model has no state "linked in the LRU, absent from the key map": the rest of the
+        # case cannot be followed; the implementation-side oracles above still apply
+        res["known"].append(KNOWN_ORPHAN + ": " + "; ".join(p for p in problems if "cold path unwound" in p)[:400])
+        del problems[:]
+        return res
     if not replay:
         return res
     rc, rout, rerr = run_replay(lines)
@@ -635,6 +756,83 @@ def run_intern_diff(seed, tier):
     return res
 
 
+def h5b_present():
+    """Does the crate under test carry hook H5b (commit records)?"""
+    rc, out, _ = run_harness(["inputs 1", "intern 1 0"], True)
+    return rc == 0 and "REC op=commit " in out
+
+
+def run_intern_panic(seed, tier, n_cases=None, user_faults=True, workers=8):
+    """The C22 intern stage: panic profile, value oracles on the implementation, replay of the
+    unwound linearisation through the model (when hook H5b is there)."""
+    from concurrent.futures import ThreadPoolExecutor
+    if n_cases is None:
+        n_cases = {"quick": 160, "thorough": 1600}.get(tier, 160)
+    rng = random.Random("intern_panic-%s" % seed)
+    nshards, smap, hashval = shard_map(True)
+    h5b = h5b_present()
+    res = {"seed": seed, "tier": tier, "nshards": nshards, "hook_h5b": h5b, "cases": 0,
+           "requests": 0, "records": 0, "cases_with_panic": 0, "cases_with_unwound_reuse": 0,
+           "panics_by_fault": {}, "unwound_calls": {"reuse_after_commit": 0,
+                                                    "cold_after_commit": 0,
+                                                    "fast_after_touch": 0,
+                                                    "before_any_write": 0,
+                                                    "cold_between_lru_and_key_map": 0},
+           "requests_checked_after_a_panic": 0, "known_finding_cases": 0, "known": [],
+           "value_failures": [], "model_mismatches": [], "samples": []}
+    cases = []
+    for ci in range(n_cases):
+        sub = rng.getrandbits(32)
+        cases.append((sub, gen_panic_case(random.Random(sub), smap, nshards, user_faults)))
+    with ThreadPoolExecutor(max_workers=workers) as ex:
+        results = list(ex.map(lambda c: check_case_full(c[1], True, hashval, replay=h5b), cases))
+    for ci, ((sub, ops), r) in enumerate(zip(cases, results)):
+        if ci < 2:
+            res["samples"].append(ops)
+        res["cases"] += 1
+        res["requests"] += sum(1 for o in ops if o.startswith(("get ", "intern ")))
+        st = r["stats"]
+        if st:
+            res["records"] += (st["fast"] + st["cold"] + st["reuse"] + st["mca_unchanged"]
+                               + st["mca_changed"] + st["unwound_reuse"] + st["unwound_cold"]
+                               + st["unwound_fast"] + st["aborted"])
+            u = res["unwound_calls"]
+            u["reuse_after_commit"] += st["unwound_reuse"]
+            u["cold_after_commit"] += st["unwound_cold"]
+            u["fast_after_touch"] += st["unwound_fast"]
+            u["before_any_write"] += st["aborted"] - st["orphan_in_lru"]
+            u["cold_between_lru_and_key_map"] += st["orphan_in_lru"]
+            res["cases_with_unwound_reuse"] += st["unwound_reuse"] > 0
+        n_p = 0
+        for k, v in r["panics"].items():
+            if k == "after_any_panic_requests":
+                res["requests_checked_after_a_panic"] += v
+            elif not k.startswith("known:"):
+                res["panics_by_fault"][k] = res["panics_by_fault"].get(k, 0) + v
+                n_p += v
+        res["cases_with_panic"] += n_p > 0
+        if r["known"]:
+            res["known_finding_cases"] += 1
+            if len(res["known"]) < 3:
+                res["known"].append({"case_seed": sub, "notes": r["known"]})
+        if r["value_problems"]:
+            res["value_failures"].append({"case_seed": sub, "case": ops,
+                                          "problems": r["value_problems"][:5]})
+        elif r["model_problems"]:
+            res["model_mismatches"].append({"case_seed": sub, "case": ops,
+                                            "problems": r["model_problems"][:5]})
+    res["ok"] = not res["value_failures"] and not res["model_mismatches"]
+    return res
+
+
+def shrink_value_failure(ops, hashval=None, budget=200):
+    """Smallest history (by dropping operations) on which the value oracle still fails."""
+    def fails(cand):
+        return bool(check_case_full(cand, True, hashval, replay=False)["value_problems"])
+    small = shrink(ops, budget, True, hashval, fails)
+    return small, check_case_full(small, True, hashval, replay=False)["value_problems"]
+
+
 if __name__ == "__main__":
     import argparse
     ap = argparse.ArgumentParser()
@@ -642,6 +840,7 @@ if __name__ == "__main__":
     ap.add_argument("--tier", default="quick")
     ap.add_argument("--build", action="store_true")
     ap.add_argument("--case", help="file with one case; prints the comparison")
+    ap.add_argument("--panic", action="store_true", help="run the C22 panic profile")
     a = ap.parse_args()
     if a.build:
         build()
@@ -651,6 +850,6 @@ if __name__ == "__main__":
         ok, problems, stats = check_case(ops, not any(o.startswith("par ") for o in ops), hashval)
         print(json.dumps({"ok": ok, "problems": problems, "stats": stats}, indent=1))
         sys.exit(0 if ok else 1)
-    r = run_intern_diff(a.seed, a.tier)
+    r = run_intern_panic(a.seed, a.tier) if a.panic else run_intern_diff(a.seed, a.tier)
     print(json.dumps(r, indent=1))
     sys.exit(0 if r["ok"] else 1)
